@@ -171,7 +171,7 @@ ob("c13::solver::powi_no_panic", "C13", checks="default", timeout=900, functions
 ob("c13::solver::powi_zero_one", "C13", checks="default", timeout=600, functions=["TwoFloat::powi"])
 ob("c13::solver::sqrt_domain", "C13", checks="default", timeout=600, functions=["TwoFloat::sqrt"])
 ob("c13::solver::roots_no_panic", "C13", checks="default", timeout=600, functions=["TwoFloat::sqrt", "TwoFloat::cbrt", "TwoFloat::hypot"])
-ob("c13::powi_neg_is_recip_small", "C13", cls="bounded", timeout=900, backend="cbmc+cvc5", functions=["TwoFloat::powi"], bound={"exponent": "0 < n <= 7", "operands": "all word patterns"})
+ob("c13::powi_neg_is_recip_small", "C13", cls="bounded", timeout=900, backend="cbmc+cvc5", functions=["TwoFloat::powi"], bound={"exponent": "0 < n <= 3", "operands": "all word patterns"})
 ob("c13::exact_points", "C13", cls="ground", native=True, functions=["TwoFloat::sqrt", "TwoFloat::cbrt", "TwoFloat::powi"])
 
 # ------------------------------------------------------------------ C15
@@ -188,6 +188,26 @@ ob("c16::exact_points", ["C16", "C17", "C18"], cls="ground", native=True, functi
 ob("c16::solver::inverse_trig_domain", "C17", checks="default", timeout=900, functions=["TwoFloat::asin", "TwoFloat::acos", "TwoFloat::atan", "TwoFloat::atan2"])
 ob("c16::solver::atan2_axes", "C17", checks="default", timeout=900, functions=["TwoFloat::atan2"])
 ob("c16::solver::hyperbolic_total", "C18", checks="default", timeout=900, functions=["TwoFloat::sinh", "TwoFloat::cosh", "TwoFloat::tanh", "TwoFloat::asinh", "TwoFloat::acosh", "TwoFloat::atanh"])
+
+# ------------------------------------------------------------------ C05 (exact clauses), C19, C11
+ob("c05::recip_is_one_over_x", "C05", cls="miter", timeout=900, backend="cbmc+cvc5", functions=["TwoFloat::recip"])
+ob("c05::div_f64_exact_clauses", "C05", timeout=600, functions=["Div<&f64> for &TwoFloat", "DivAssign<&f64> for TwoFloat"])
+ob("c05::div_f64_pow2_exact", "C05", timeout=600, functions=["Div<&f64> for &TwoFloat"])
+ob("c05::div_zero_numerator", "C05", timeout=2400, functions=["Div bodies (zero numerator)"])
+ob("c05::long_division_exact_points", "C05", cls="ground", native=True, functions=["Div<&TwoFloat> for &TwoFloat", "DivAssign<&TwoFloat> for TwoFloat", "TwoFloat::recip"])
+ob("c19::integers_exact", "C19", cls="ground", native=True, functions=["Rem/RemAssign impls", "TwoFloat::div_euclid", "TwoFloat::rem_euclid"])
+ob("c19::big_integers_exact", "C19", cls="ground", native=True, functions=["Rem impls", "TwoFloat::div_euclid", "TwoFloat::rem_euclid"])
+for _n in ("tf_tf", "tf_f64", "f64_tf"):
+    ob("c19::rem_is_truncated_formula_" + _n, "C19", cls="miter", timeout=300, functions=["Rem impls"])
+ob("c19::rem_euclid_structure", "C19", cls="miter", timeout=300, functions=["TwoFloat::rem_euclid"])
+for _n in ("alg9_mul_tf_f64", "alg9_mul_f64_tf", "alg9_mul_assign_f64", "alg12_mul_tf_tf", "alg12_mul_assign_tf", "alg15_div_tf_f64", "alg15_div_assign_f64", "new_mul_is_fma_form"):
+    ob("c11::nostd_" + _n, "C11", cls="miter", timeout=600, backend="cbmc+cvc5", features="nostd", functions=["arithmetic::fma (no-std definition) through " + _n])
+
+# ------------------------------------------------------------------ C20
+ob("c20::sd::deserialize_seq", "C20", features="serde", timeout=600, functions=["Deserialize for TwoFloat (visit_seq)", "TryFrom<(f64,f64)> for TwoFloat"])
+ob("c20::sd::deserialize_map", "C20", features="serde", timeout=900, functions=["Deserialize for TwoFloat (visit_map, Field)"], bound_note="map length <= 3 (unwinding assertion on)")
+ob("c20::sd::serialize_struct", "C20", features="serde", timeout=300, functions=["Serialize for TwoFloat"])
+ob("c20::text_format_sample", "C20", cls="ground", native=True, functions=["Display / LowerExp / UpperExp for TwoFloat"])
 
 COMMON_ASSUMPTIONS = [
     "Kani/CBMC bit-precise model of IEEE-754 binary64 (+,-,*,/,fma,casts,comparisons) equals the target's; one NaN (payload/sign of NaN not modelled)",
